@@ -188,6 +188,11 @@ func (c *Chan[T]) Send(v T) {
 		return
 	}
 	c.doSend(s, v)
+	// the value is out: others may act on it before the sender's next statement runs (a
+	// preemption point after the effect, not only before it)
+	if !s.Aborted() {
+		s.Yield(sched.KSend, c.id)
+	}
 }
 
 func (c *Chan[T]) doSend(s *sched.Sim, v T) {
